@@ -34,3 +34,15 @@ for _m in ("random", "diversity", "representativity"):
     def _rt(case, v, _m=_m):
         return v.get("n_labeled_now", getattr(case, "n_labeled", 0)) >= 2 and case.entry.name == "RT_" + _m
     rule(None, "RegressionTreeBasedAL", None, "tree-path/%s (>=2 labelled)" % _m)(_rt)
+
+
+# ---- density / cognitive stream strategies (C04): inside one query() they ask the budget manager
+# once per instance (simulation) without committing the earlier instances of the same chunk, so
+# within a chunk every instance is judged against the same stale budget estimate
+_CHUNK_STALE = ["StreamDensityBasedAL", "CognitiveDualQueryStrategy", "CognitiveDualQueryStrategyRan",
+                "CognitiveDualQueryStrategyFixUn", "CognitiveDualQueryStrategyVarUn",
+                "CognitiveDualQueryStrategyRanVarUn"]
+for _n in _CHUNK_STALE:
+    def _chunked(case, v):
+        return isinstance(case, dict) and case.get("chunking") != "one"
+    rule("C04", _n, None, "query/update chunks longer than one instance")(_chunked)
